@@ -19,7 +19,10 @@ Section Seq.
   | OScan (s e : list N) (limit : nat) (Ls : list layout)
   | OReverseScan (s e : list N) (limit : nat) (Ls : list layout)
   | OChecksum (s e : list N) (Ls : list layout)
-  | OCas (atomic : bool) (k : list N) (prev : option (list N)) (nv : list N).
+  | OCas (atomic : bool) (k : list N) (prev : option (list N)) (nv : list N)
+  (* a call refused before any request (BatchPut with mismatching argument lengths) or a single-request call /
+     range read one of whose requests is answered by an error or without a body *)
+  | ORefused.
 
   Inductive result :=
   | RUnit
@@ -66,6 +69,7 @@ Section Seq.
         | None => Some (RErr, st)
         | Some (p, sw, s') => Some (RCas p sw, s')
         end
+    | ORefused => Some (RErr, st)
     end.
 
   (* the same call on one ordered map. Complete calls: no layout, no schedule. A call in which a request
@@ -104,6 +108,7 @@ Section Seq.
     | OChecksum s e _ => (RCks (cks_list digest (range st s e)), st)
     | OCas atomic k prev nv =>
         if atomic then let '(p, sw, s') := spec_cas st k prev nv in (RCas p sw, s') else (RErr, st)
+    | ORefused => (RErr, st)
     end.
 
   Fixpoint run_ops (st : store) (ops : list op) : option (list result * store) :=
@@ -177,6 +182,7 @@ Section Seq.
       rewrite cas_correct. destruct (spec_cas st k prev nv) as [[p sw] s1] eqn:E. intros [= <- <-].
       split; [reflexivity|].
       unfold spec_cas in E. destruct (opt_bytes_eqb (srv_get st k) prev); injection E as _ _ <-; [apply sorted_put; exact Hs|exact Hs].
+    - intros [= <- <-]. split; [reflexivity|exact Hs].
   Qed.
 
   (* every sequence of calls, every schedule incl. failing requests: same results, same final map *)
